@@ -217,10 +217,27 @@ def ancestors : Nat → String → List String
   | 0, d => [d]
   | n + 1, d => if d == "." then ["."] else d :: ancestors n (dirOf d)
 
-/-- `file.Find`: from the working directory upwards to `$HOME` (the sandbox root), the first directory with a
-    NON-DIRECTORY entry named `spokfile` (a regular file or any symbolic link); the path is returned unresolved -/
-def findSpokfile (fs : FS) (cwd : String) : Option String :=
-  ((ancestors 16 cwd).map (joinPath · "spokfile")).find? fun p => (fs.entry p).findable
+/-- `isAbove(dir, other)` on sandbox-relative paths (`.` is the sandbox root) -/
+def isAboveP (d other : String) : Bool := d != other && (d == "." || other.startsWith (d ++ "/"))
+
+/-- `file.Find`: from the working directory upwards, never into a directory above `stop` (= `$HOME`; the sandbox root `.`
+    unless the step says `home=<dir>`), ending at `stop` — the first directory with a NON-DIRECTORY entry named `spokfile`
+    (a regular file or any symbolic link); the path is returned unresolved.  Nothing above the sandbox root holds one. -/
+def findFrom (fs : FS) (stop : String) : Nat → String → Option String
+  | 0, _ => none
+  | n + 1, d =>
+    if isAboveP d stop then none
+    else if (fs.entry (joinPath d "spokfile")).findable then some (joinPath d "spokfile")
+    else if d == stop || d == "." then none
+    else findFrom fs stop n (dirOf d)
+
+def findSpokfile (fs : FS) (cwd : String) (stop : String := ".") : Option String := findFrom fs stop 17 cwd
+
+/-- `home=<dir>`: the step runs with `$HOME` = that directory of the sandbox -/
+def homeOf (flags : List String) : String :=
+  match flags.reverse.find? (·.startsWith "home=") with
+  | some f => (f.drop 5).toString
+  | none => "."
 
 def optionsOf (flags : List String) : Options :=
   let has (a b : String) := flags.contains a || flags.contains b
@@ -239,7 +256,7 @@ def worldOf (c : Case) (fs : FS) (st : StepSpec) : World × Option String :=
   let o := optionsOf st.flags
   let sp : Option String := match givenSpokfile st.flags with
     | some p => some p
-    | none => findSpokfile fs st.cwd
+    | none => findSpokfile fs st.cwd (homeOf st.flags)
   -- the spec of the case describes the FILE that `<proj>/spokfile` designates, by whatever path it is reached
   let isProj := c.proj != "" && sp.map fs.real == some (fs.real (joinPath c.proj "spokfile"))
   -- `exists(.env)` follows links; `godotenv.Load` fails on a directory and on the generator's bad text
@@ -424,6 +441,7 @@ structure Acc where
   v20 : Verdict
   v14 : Verdict := .na
   v03 : Verdict := .na
+  v17 : Verdict := .na
 
 def runCase (c : Case) (secs : List (String × List String)) : Acc :=
   let idx := List.range c.steps.length
@@ -447,20 +465,21 @@ def runCase (c : Case) (secs : List (String × List String)) : Acc :=
       v19 := acc.v19.both (c19 ctxJ ob),
       v20 := acc.v20.both (c20 ctxJ ob),
       v14 := acc.v14.both (c14 ctxJ ob),
-      v03 := acc.v03.both (c03 ctxJ ob) })
+      v03 := acc.v03.both (c03 ctxJ ob),
+      v17 := acc.v17.both (c17 ctxJ ob) })
     { fs := initialFS c, outs := [], prevFailed := [], v09 := .na, v19 := .na, v20 := .na }
 
 def handle (line : String) : String :=
   match line.splitOn " | " with
   | [inp, impl] =>
     match parseCase inp with
-    | none => "BAD-CASE || C09=FAIL C19=FAIL C20=FAIL C14=FAIL C03=FAIL"
+    | none => "BAD-CASE || C09=FAIL C19=FAIL C20=FAIL C14=FAIL C03=FAIL C17=FAIL"
     | some c =>
       let secs := sectionsOf impl
       let acc := runCase c secs
       let j (f : StepOut → String) := " / ".intercalate (acc.outs.map f)
       s!"EXIT {j (·.exit)} ; NAMED {j (·.named)} ; WR {j (·.wr)} ; OUT {j (·.out)} ; JS {j (·.js)} ; OM {j (·.om)} ; TR {j (·.tr)} ; VR {j (·.vr)} ; EM {j (·.em)}" ++
-      s!" || C09={acc.v09.str} C19={acc.v19.str} C20={acc.v20.str} C14={acc.v14.str} C03={acc.v03.str}"
-  | _ => "BAD-LINE || C09=FAIL C19=FAIL C20=FAIL C14=FAIL C03=FAIL"
+      s!" || C09={acc.v09.str} C19={acc.v19.str} C20={acc.v20.str} C14={acc.v14.str} C03={acc.v03.str} C17={acc.v17.str}"
+  | _ => "BAD-LINE || C09=FAIL C19=FAIL C20=FAIL C14=FAIL C03=FAIL C17=FAIL"
 
 end Spok.Oracle.Cli
